@@ -111,12 +111,30 @@ func runC06(p *core.Prog, r *core.Report) {
 		sendArms, bad := t.armEdges(t.Push, func(sel *ssa.Select, a sx.Arm) bool {
 			return a.State != nil && a.State.Dir == types.SendOnly && t.chanRole(a.State.Chan) == "buffered"
 		})
-		for _, b := range bad {
-			r.Unknown("C06-R2", "select lowering in PushTask", "-", b)
-		}
+		_ = bad
+		// a select whose arms cannot be told apart in the control flow (all arms fall through to the same code without an
+		// index test) may or may not have enqueued: it counts as 0..1
+		fuzzy := map[ssa.Instruction]bool{}
+		sx.Instrs(t.Push, func(in ssa.Instruction) {
+			sel, ok := in.(*ssa.Select)
+			if !ok {
+				return
+			}
+			if _, okArms := sx.SelectArms(sel); okArms {
+				return
+			}
+			for _, st := range sel.States {
+				if st.Dir == types.SendOnly && t.chanRole(st.Chan) == "buffered" {
+					fuzzy[in] = true
+				}
+			}
+		})
 		w := sx.Weights{Edge: edgeWeight(sendArms), Instr: func(in ssa.Instruction) sx.Range {
 			if s, ok := in.(*ssa.Send); ok && t.chanRole(s.Chan) == "buffered" {
 				return sx.Range{Min: 1, Max: 1}
+			}
+			if fuzzy[in] {
+				return sx.Range{Min: 0, Max: 1}
 			}
 			return sx.Range{}
 		}}
